@@ -186,9 +186,19 @@ message record is the source text at the token — `source[pos : pos+len]` — w
 theorem C12_record (cfg : ECfg) (body : Str) (ex : Exc) (pos len : Nat)
     (h1 : isSubclass cfg ex.cls ["Exception"] = true) (h2 : ex.cls ≠ "Exception") (h3 : ex.cls ≠ "BaseException") :
     errorRecords cfg body ex (some (pos, len)) =
-      [{ text := (body.drop pos).take len, line := (Tok.location body { str := [], pos := pos }).1,
-         col := (Tok.location body { str := [], pos := pos }).2 }] := by
+      [{ text := ((cfg.locate pos).1.drop (cfg.locate pos).2).take len,
+         line := (Tok.location (cfg.locate pos).1 { str := [], pos := (cfg.locate pos).2 }).1,
+         col := (Tok.location (cfg.locate pos).1 { str := [], pos := (cfg.locate pos).2 }).2 }] := by
   simp [errorRecords, h1, h2, h3]
+
+/-- a position is looked up in the template it belongs to; without library templates that is the template itself -/
+theorem locate_main (cfg : ECfg) (pos : Nat) (h : cfg.libs = []) : cfg.locate pos = (cfg.src, pos) := by
+  simp [ECfg.locate, h]
+
+/-- … and inside library `l` (whose tokens start at `l.base`) it is the offset from `l.base` in that library's source -/
+theorem locate_lib (cfg : ECfg) (l : LibTpl) (pos : Nat) (h : cfg.libs = [l]) (h1 : l.base ≤ pos) (h2 : pos < l.base + l.src.length + 1) :
+    cfg.locate pos = (l.src, pos - l.base) := by
+  simp [ECfg.locate, h, h1, h2]
 
 /-- **C12 (outside the Exception hierarchy)**: KeyboardInterrupt, SystemExit … get no records: they are
 not re-typed (the behaviour of /repo after the D-12a fix) -/
@@ -206,8 +216,8 @@ an internal macro) is what it was — so the render function's handler, which ru
 last -/
 theorem C12_macro_records_then_reraises (cfg : ECfg) (al : List (Str × Val)) (f : Nat) (nm : Str) (body : Node)
     (s s' : RState) (ex : Exc) (t : Nat × Nat)
-    (hm : lookupAssoc cfg.macros nm = some body)
-    (hb : eval cfg [] f body (macroEnter body { s with x := { s.x with token := none } }) = .raised ex s')
+    (hm : lookupAssoc (cfg.macrosOf s.env.topFrame.tid) nm = some body)
+    (hb : eval cfg [] f body (macroEnter s.env.topFrame.tid body { s with x := { s.x with token := none } }) = .raised ex s')
     (ht : s'.x.token = some t) :
     ∃ s'', eval cfg al (f + 1) (.useInternal (some nm)) s = .raised ex s'' ∧ s''.errs = s'.errs.push t ∧
       s''.x.token = none ∧ s''.env.own = s.env.own ∧ s''.streams = s'.streams := by
@@ -220,7 +230,7 @@ theorem C12_macro_records_then_reraises (cfg : ECfg) (al : List (Str × Val)) (f
 theorem C12_records_order (cfg : ECfg) (src : Str) (ex : Exc) (tok : Nat × Nat) (inner : List (Nat × Nat))
     (h : ¬(ex.cls == "Exception" || ex.cls == "BaseException" || !isSubclass cfg ex.cls ["Exception"]) = true) :
     (errorRecords cfg src ex (some tok) inner).map (·.text) =
-      (inner ++ [tok]).map (fun p => (src.drop p.1).take p.2) := by
+      (inner ++ [tok]).map (fun p => ((cfg.locate p.1).1.drop (cfg.locate p.1).2).take p.2) := by
   unfold errorRecords
   simp only [h, if_false, Bool.false_eq_true, List.map_map]
   apply List.map_congr_left
